@@ -123,7 +123,7 @@ def _run(prop, tier, replay, seed, work, t0):
         # ---- role 1: design check (exhaustive, small scope) on the model as coded
         qcfgs, tcfgs, muts = DESIGN[prop]
         for cfg in (qcfgs if quick else tcfgs):
-            r = C.design_check(DESIGN_MODULE.get(cfg, "Loop"), cfg, work, workers=12 if quick else 14, timeout=240 if quick else 1500, xmx="10g")
+            r = C.design_check(DESIGN_MODULE.get(cfg, "Loop"), cfg, work, workers=12 if quick else 14, timeout=600 if quick else 1500, xmx="10g")
             design.append(r)
         # ---- vacuity guard: a seeded model mutant must trip the monitor it is aimed at
         for cfg, tag in muts:      # (all of them in both tiers: they are cheap, and the two tiers must not drift apart)
